@@ -34,7 +34,7 @@ def V(x: str) -> list:
     return ["var", x]
 
 
-_BIN = {"add": "+", "sub": "-", "mul": "*", "le": "<=", "lt": "<", "eq": "=="}
+_BIN = {"add": "+", "sub": "-", "mul": "*", "div": "/", "le": "<=", "lt": "<", "eq": "=="}
 
 
 def src(e, ints: bool = True) -> str:
@@ -93,6 +93,8 @@ def ev(e, env):
         return num(a) - num(b)
     if k == "mul":
         return num(a) * num(b)
+    if k == "div":
+        return num(a) / num(b)      # ZeroDivisionError where the model says "undefined"
     if k == "le":
         return num(a) <= num(b)
     if k == "lt":
@@ -188,12 +190,27 @@ def _mkgrid(g: dict):
     raise ValueError(g)
 
 
+def _affine_wrapper(base, a, b):
+    import functools
+
+    @functools.wraps(base)
+    def wrapper(*args, **kwargs):
+        return a * base(*args, **kwargs) + b
+
+    return wrapper
+
+
 def build_model(mj: dict):
     impl()
     from lcm import Model
 
     made = {f["name"]: mkfunc(f["name"], f["args"], f["body"], f.get("stochastic", False), f.get("ints", True), f.get("stacked", False))
             for f in mj["functions"] if not f.get("same_as")}
+    for f in mj["functions"]:
+        if f.get("affine_wrap"):
+            # a*f + b written the way a user would write it on top of an existing function: a decorator built with
+            # functools.wraps (the wrapper has the signature of the wrapped function and carries `__wrapped__`)
+            made[f["name"]] = _affine_wrapper(made[f["name"]], float(Fr(f["affine_wrap"][0])), float(Fr(f["affine_wrap"][1])))
     # declaration order is kept; `same_as`: the very same callable under a second name
     fobjs = {f["name"]: made[f["same_as"]] if f.get("same_as") else made[f["name"]] for f in mj["functions"]}
     return Model(
